@@ -643,7 +643,12 @@ func checkDelta(res *fw.Result, old, new *built, cat *Catalog, step string, hist
 			class += "/target-" + colChange(o, n, e.Table, e.Col)
 		case e.Kind == "fk-type-mismatch" || e.Kind == "unknown-ref-column" || e.Kind == "unknown-ref-table":
 			parts := strings.SplitN(e.Other+".", ".", 3)
-			class = "target-" + colChange(o, n, parts[0], parts[1]) + "/" + colChange(o, n, e.Table, e.Col)
+			if o.Table(parts[0]) == nil && tablesBefore[parts[0]] {
+				// the referenced table is new in the model but an earlier version left one of that name behind
+				class = "target-in-table-left-by-earlier-version/" + colChange(o, n, e.Table, e.Col)
+			} else {
+				class = "target-" + colChange(o, n, parts[0], parts[1]) + "/" + colChange(o, n, e.Table, e.Col)
+			}
 		case e.Kind == "trailing-comma":
 			class = "new-" + tableShape(n.Table(e.Table))
 		case e.Kind == "table-exists":
